@@ -794,7 +794,8 @@ def _validate_records(ctx: Ctx, recs, aux, selftest):
                 ctx.violation("gpb1-trace-mode-probabilities", f"real {name}: mode probabilities {ax['m_post']} differ "
                               f"from the mixed posterior {specm}", {"record": rec, "aux": ax})
     missed = [bad_copies[j][0] for j in range(len(bad_copies)) if j not in rejected_copies]
-    if missed:
+    if missed and not flagged and not ctx.violations:
+        # (when real records are themselves rejected the copies derive from unsound originals; the violations win)
         raise tlc.MachineryError(f"binding self-test: TraceMMAE accepted corrupted records {missed}")
     ctx.traces_validated += checked
     ctx.extra["trace_records"] = {"records": len(recs), "validated_by_tlc": checked,
@@ -862,7 +863,7 @@ def _corrupt(recs):
     if c:                                   # closed flag flipped
         c["closed"], c["hb"] = 0, -1
         out.append(("closed-flipped", c))
-    c = pick(lambda r_: r_["closed"] == 1 and r_["kind"] == "smm")
+    c = pick(lambda r_: r_["closed"] == 1 and r_["kind"] == "smm" and len(r_["ids"]) >= 2 and r_["post"] == [r_["hb"]])
     if c:                                   # handed-back filter is some other model
         c["hb"] = [x for x in c["ids"] if x != c["hb"]][0]
         out.append(("wrong-handback", c))
